@@ -974,6 +974,10 @@ pub fn drive_c19(t: &Tier, m: &mut Matrix, sink: &mut Sink) {
                 sink.emit(m.run(&one(Case::new("prepend", x.clone()).y(YSpec::Bits(y.clone())))));
                 sink.emit(m.run(&one(Case::new("insert", x.clone()).y(YSpec::Bits(y.clone())).a(Args { i: Some(n / 2), ..Default::default() }))));
                 sink.emit(m.run(&one(Case::new("extend", x.clone()).a(Args { bits: Some(y.clone()), ..Default::default() }))));
+                // the iterator under-reports (lower bound 0, or a loose honest hint): the overflow must still be signalled
+                for lie in [Some(0usize), Some(LOOSE_UPPER + 5), Some(LOOSE_BOTH + 2)] {
+                    sink.emit(m.run(&one(Case::new("extend", x.clone()).a(Args { bits: Some(y.clone()), lie, ..Default::default() }))));
+                }
             }
         }
         // out-of-range indices panic when debug assertions are compiled in
